@@ -258,6 +258,9 @@ def gen_spec(rng, kind=None):
         )
         if rng.random() < 0.5:
             occupation = [rng.choice([1.0, 0.5, 0.25]) for _ in range(k)]
+        if rng.random() < 0.15:
+            # a single atom at the origin: one atom per primitive cell
+            els, frac, occupation = [rng.choice(["Fe", "Cl", "O", "C"])], np.zeros((1, 3)), None
     frac = np.asarray(frac, dtype=float)
     if rng.random() < 0.1 and len(els) >= 1:
         # a disordered site: two half-occupied positions a few hundredths of an Angstrom apart
